@@ -10,7 +10,7 @@ if [ ! -d "$D/repo" ]; then
   rsync -a --exclude target --exclude .git /repo/ "$D/repo/"
   ( cd "$D/repo" && git init -q . && git add -A >/dev/null && git -c user.email=a@b -c user.name=x commit -qm base )
 fi
-( cd "$D/repo" && git checkout -q -- . )
+( cd "$D/repo" && git checkout -q -- . && git clean -fdq )
 if [ "$PATCH" != "-" ]; then ( cd "$D/repo" && git apply "$PATCH" ); fi
 mkdir -p "$D/verif"
 rsync -a --delete --exclude harness/target --exclude work --exclude replays --exclude evidence --exclude .git /verif/ "$D/verif/"
